@@ -16,8 +16,8 @@ def run(ctx):
     evals = 0
     seen = set()
     lines, expect = [], []
-    masks = [None] + list(range(-8, 65) if ctx.thorough else [-8, -1, 0, 1, 7, 8, 9, 15, 16, 17, 23, 24, 25, 31, 32, 33, 47, 64])
-    keylens = range(0, 65) if ctx.thorough else list(range(0, 36)) + [40, 47, 48, 56, 64]
+    masks = [None] + list(range(-8, 65) if ctx.thorough else [-8, -1, 0, 1, 6, 7, 8, 9, 14, 15, 16, 17, 22, 23, 24, 25, 30, 31, 32, 33, 46, 47, 62, 64])
+    keylens = range(0, 65) if ctx.thorough else list(range(0, 36)) + [40, 45, 46, 47, 48, 56, 61, 62, 63, 64]
     layouts = [[], [("KS", "00604B120F9292800000")], [("T1", "x" * 252), ("T2", "")]]
     for v in "ABCD":
         bs, ml = t.BS[v], t.MACLEN[v]
